@@ -20,7 +20,8 @@ RULE = ("(1) Traced runs from the shared end-to-end generator that converged (ru
         "centred on the scalar mean of all entries matches the signature of known finding KF2; any third value is a "
         "violation. Non-trivial = the per-column and scalar-centre formulas differ by more than 1e-6 relative (so the check "
         "can tell them apart); distinct by SHA-1 of the case."
-        ' Function-level data also Fortran-ordered / transposed view / row-strided, and a second call on the same array object after an in-place translation.')
+        ' Function-level data also Fortran-ordered / transposed view / row-strided, and a second call on the same array object after an in-place translation.'
+        ' Function level also with K = 10..25.')
 ASSUMPTIONS = ["exit reason (converged) is read from the guarded run_end hook", "runs where some cluster is empty or that stopped at the limit are outside the property's quantifier (discarded)"]
 
 
@@ -65,7 +66,7 @@ def execute_e2e(case, t):
 @st.composite
 def function_case(draw):
     nw = draw(st.integers(1, 8))
-    K = draw(st.integers(2, 4))
+    K = draw(st.one_of(st.integers(2, 4), st.integers(2, 4), st.integers(2, 4), st.sampled_from([10, 11, 12, 16, 25])))
     T = draw(st.one_of(st.integers(2 * K + 1, 60), st.integers(2 * K + 1, 60), st.integers(2 * K + 1, 60),
                        st.sampled_from([4097, 4700, 8200, 9001])))
     return {"nw": nw if T < 1000 else min(nw, 3), "K": K, "T": T, "seed": draw(st.integers(0, 2 ** 32 - 1)), "min_size": draw(st.sampled_from([1, 1, 2])), "noise_scale": draw(st.sampled_from([1.0, 1.0, 1.0, 1e-3, 1e-5])), "data_dtype": draw(st.sampled_from(["float64", "float64", "float64", "int64", "int32"])),
